@@ -279,6 +279,21 @@ def gen_writers(S, info):
     out.append('def pipelines : List (String × List PStep) := [')
     out.append(',\n'.join('  (%s, [%s])' % (lstr(f), ', '.join(st)) for f, _, st in pipes))
     out.append(']')
+    # the header assembly of write_formatted_basis_str: formats treated specially and the separator
+    wf = S.func('writers/write.py', 'write_formatted_basis_str')
+    special = []
+    for n in ast.walk(wf):
+        if isinstance(n, ast.Compare) and ast.unparse(n.left) == 'fmt' and len(n.ops) == 1 and isinstance(n.ops[0], ast.Eq):
+            special.append((n.lineno, lit(n.comparators[0], 'fmt == ...')))
+    special = [x for _, x in sorted(special)]
+    joins = [ast.unparse(n) for n in ast.walk(wf) if isinstance(n, ast.Assign) and ast.unparse(n.targets[0]) == 'header_str']
+    if len(joins) != 1:
+        raise GenError('write_formatted_basis_str: header_str assignment not found uniquely')
+    out.append('')
+    out.append('/-- formats with a special case in the header assembly, in source order -/')
+    out.append('def fmtSpecial : List String := %s' % lean(special))
+    out.append('/-- source text of the comment prefixing -/')
+    out.append('def headerPrefixing : String := %s' % lstr(joins[0]))
     out += ['', 'end BSE.Gen.Writers', '']
     return '\n'.join(out)
 
